@@ -31,14 +31,17 @@ Record fixes := {
   f_rollback_order : bool; (* Rollback tolerates a block record that lists the spender of an in-block coin before its creator *)
   f_import_tipcheck : bool; (* asyncImport refuses (retry) a batch when the chain it reads is not the chain the handler is synced to *)
   f_removable_debit : bool; (* removableTxForRemoveWallet decides from the wallet database alone, not from the node's current best chain *)
-  f_ff_check : bool (* Start() takes the sync-record fast-forward only when the stored tip is still on the node's chain *)
+  f_ff_check : bool; (* Start() takes the sync-record fast-forward only when the stored tip is still on the node's chain *)
+  f_keystore_undo : bool (* 96d76da: a failed NewAddress / last removal round repairs the cached keystore in memory (ForgetAddresses,
+                            RestoreCachedKeystore: no database access) instead of reloading it from the store (f6a5978 / 33294fa:
+                            a reload that can fail itself); Ledger/FaultOps.v *)
 }.
 Definition repaired : fixes :=
   {| f_removable := true; f_rollback := true; f_import_retry := true; f_start_reorg := true; f_rollback_order := true;
-     f_import_tipcheck := true; f_removable_debit := true; f_ff_check := true |}.
+     f_import_tipcheck := true; f_removable_debit := true; f_ff_check := true; f_keystore_undo := true |}.
 Definition as_found : fixes :=
   {| f_removable := false; f_rollback := false; f_import_retry := false; f_start_reorg := false; f_rollback_order := false;
-     f_import_tipcheck := false; f_removable_debit := false; f_ff_check := false |}.
+     f_import_tipcheck := false; f_removable_debit := false; f_ff_check := false; f_keystore_undo := false |}.
 
 Inductive wst := WReady | WImporting (cursor : Z) | WRemoving.
 
@@ -421,11 +424,22 @@ Fixpoint import_blocks (p : params) (own : owner_fn) (n : node) (k stop : Z)
       else import_blocks p own n k stop acc rest
   end.
 
+(* the node's block at height h is the block the handler has synced at that height (SyncedBlock(h) against
+   the node's header of height h); false when either is missing *)
+Definition node_on_synced (n : node) (ws : wstate) (h : Z) : bool :=
+  match node_at n h, synced_at ws h with
+  | Some nb, Some bid => (bid =? b_id nb)%N
+  | _, _ => false
+  end.
+
 (* asyncImport: ONE commit covering the heights (cursor, min(cursor + B, best)] where best is the
    handler's tip; hand-over (status ready) when that reaches best.  [B] is the batch size (1000 in
    the code).  The node [n] is read as it is NOW: it may be ahead of, or on another branch than,
    the handler's synced chain.  A batch that meets the spend of a coin it does not have
-   (ErrUnexpectedCreditNotFound) made the worker drop the task as found; repaired, it is retried. *)
+   (ErrUnexpectedCreditNotFound) made the worker drop the task as found; repaired, it is retried.
+   As found, whatever was read is committed; repaired (f_import_tipcheck), the batch is refused
+   (ErrImportingContinuable: retried) unless the node's block at the batch's upper height is the
+   handler's synced block of that height, i.e. unless the blocks read are blocks of the handler's chain. *)
 Definition import_batch (fx : fixes) (p : params) (B : Z) (n : node) (st : xstate) (w : N) : xstate * iout :=
   match status_of st w with
   | Some (WImporting k) =>
@@ -437,6 +451,7 @@ Definition import_batch (fx : fixes) (p : params) (B : Z) (n : node) (st : xstat
         | inr IAbandon => if f_import_retry fx then (st, IRetry) else (with_dead st (x_dead st ++ [w]), IAbandon)
         | inr e => (st, e)
         | inl (cs, brs) =>
+            if f_import_tipcheck fx && negb (node_on_synced n (x_w st) stop) then (st, IRetry) else
             (with_status (with_brecs (with_w st {| credits := cs; synced := synced (x_w st) |}) brs)
                          (setN (x_status st) w (if stop =? best then WReady else WImporting stop)), IOk)
         end
